@@ -15,7 +15,7 @@ def postBlocked (s : SSys) (i : IPc) : Prop :=
 
 /-- An input goroutine none of whose scheduler steps is enabled (and the application has nothing to
 receive) is done, or waits at its `select` on an open empty channel, or is blocked in a post. -/
-theorem iact_rest (s : SSys) (v : IView) (hq : 1 ≤ s.qcap) (hc : snext s .consume = none)
+theorem iact_rest (s : SSys) (v : IView) (hq : 1 ≤ s.qcap) (hqa : s.postQuitArm = true) (hc : snext s .consume = none)
     (h : ∀ a, a.sched = true → iact s v a = none) :
     v.ipc = .done ∨ (v.ipc = .select ∧ v.seqs = [] ∧ v.closed = false) ∨ postBlocked s v.ipc := by
   obtain ⟨ipc, seqs, closed⟩ := v
@@ -42,7 +42,7 @@ theorem iact_rest (s : SSys) (v : IView) (hq : 1 ≤ s.qcap) (hc : snext s .cons
       have h2 : s.quitCloses = 0 := by
         cases hz : s.quitCloses with
         | zero => rfl
-        | succ n => simp [hz] at hqt
+        | succ n => simp [hz, hqa] at hqt
       refine ⟨?_, by omega, h2⟩
       cases hcons : s.consumer with
       | false => rfl
@@ -88,7 +88,7 @@ theorem critical_moves (s : SSys) (h : Inv s) (hq : s.quiescent = true) (j : Nat
   have qd := quiescent_sched s hq (.drain j) rfl
   obtain ⟨h1, h2, h3, h4, h5, h6, h7, h8, h9, h10, h11, h12, h13, h14⟩ := h
   obtain ⟨qcap, queueLen, consumer, inbuf, ppc, seqs, seqsClosed, closeSig, closedSig, ipc, killSig, winchSig, olds, callers, closedFlag,
-        suspendedFlag, suspLock, quitCloses, da1Pending, da1First, resumeClears⟩ := s
+        suspendedFlag, suspLock, quitCloses, da1Pending, da1First, resumeClears, waitDrains, postQuitArm⟩ := s
   dsimp only at *
   subst h1
   obtain ⟨pc, k⟩ := c
@@ -108,7 +108,7 @@ theorem critical_moves (s : SSys) (h : Inv s) (hq : s.quiescent = true) (j : Nat
     have hseqs : seqs = [] := by
       cases seqs with
       | nil => rfl
-      | cons t r => simp at qd
+      | cons t r => simp [h2.2.1] at qd
     subst hseqs
     have hcs0 : closedSig = 0 := by
       by_cases hcs : 0 < closedSig
@@ -185,7 +185,7 @@ theorem old_rest (s : SSys) (h : Inv s) (hq : s.quiescent = true) (o : Old) (ho 
     split at this
     · simp at this
     · assumption
-  rcases iact_rest s ⟨o.ipc, o.seqs, true⟩ h.qpos hc hall with h1 | ⟨_, _, h3⟩ | h1
+  rcases iact_rest s ⟨o.ipc, o.seqs, true⟩ h.qpos h.clears.2.2 hc hall with h1 | ⟨_, _, h3⟩ | h1
   · exact Or.inl h1
   · simp at h3
   · exact Or.inr h1
@@ -224,7 +224,7 @@ theorem rest_is_done (s : SSys) (h : Inv s) (hq : s.quiescent = true) :
       split at this
       · simp at this
       · assumption
-    rcases iact_rest s ⟨s.ipc, s.seqs, s.seqsClosed⟩ h.qpos hc hall with h1 | ⟨_, _, h3⟩ | h1
+    rcases iact_rest s ⟨s.ipc, s.seqs, s.seqsClosed⟩ h.qpos h.clears.2.2 hc hall with h1 | ⟨_, _, h3⟩ | h1
     · exact Or.inl h1
     · simp [hcl] at h3
     · exact Or.inr h1
